@@ -12,6 +12,7 @@ import (
 	"strconv"
 
 	"github.com/akrennmair/updog"
+	"github.com/akrennmair/updog/zzverif/flk"
 	"github.com/akrennmair/updog/zzverif/ix"
 	"github.com/akrennmair/updog/zzverif/model"
 	"github.com/akrennmair/updog/zzverif/rt"
@@ -271,6 +272,13 @@ func c05Multi(ctx *rt.Ctx) *rt.Violation {
 	if v := check("Flush after two WriteToBoltDatabase", filepath.Join(dir, "flush.updog")); v != nil {
 		return v
 	}
+	// a second Flush onto the path that now exists must be refused and must leave the first output intact
+	if err := w.Flush(); err == nil {
+		return rt.NewViolation("C05", "multi", "multi flush2", c05Case{Family: "multi"}, "a second Flush onto the existing output succeeded")
+	}
+	if v := check("first Flush output after a refused second Flush", filepath.Join(dir, "flush.updog")); v != nil {
+		return v
+	}
 	if m := add(50); m != "" {
 		return rt.NewViolation("C05", "multi", "multi add2", c05Case{Family: "multi"}, "%s", m)
 	}
@@ -401,6 +409,7 @@ type c05Args struct {
 }
 
 func c05Worker(ctx *rt.Ctx, job *rt.Job) []*rt.Violation {
+	flk.Sequential(true) // single goroutine: a lock of updog or bbolt that cannot be taken now never will be (reported as a hang)
 	var a c05Args
 	job.Decode(&a)
 	switch a.Family {
